@@ -131,18 +131,34 @@ func (monC19) TaskEnd(s *Sim, t *Task) {
 					bad("changed %s", d)
 				}
 			}
-			if len(post.Status.Conditions) != len(pre.Status.Conditions)+1 {
-				bad("expected exactly one appended condition")
-				continue
+			// what the command documents: the canary replica set is marked failed - and nothing else. Every
+			// other condition stays as it was; afterwards the replica set has exactly one Canary-Failed
+			// condition and it is true (set in place or added).
+			other := func(cs []edsv1.ExtendedDaemonSetReplicaSetCondition) string {
+				var keep []edsv1.ExtendedDaemonSetReplicaSetCondition
+				for _, x := range cs {
+					if x.Type != edsv1.ConditionTypeCanaryFailed {
+						keep = append(keep, x)
+					}
+				}
+				out, _ := json.Marshal(keep)
+				return string(out)
 			}
-			last := post.Status.Conditions[len(post.Status.Conditions)-1]
-			if last.Type != edsv1.ConditionTypeCanaryFailed || last.Status != "True" {
-				bad("appended condition is %s=%s", last.Type, last.Status)
+			if other(pre.Status.Conditions) != other(post.Status.Conditions) {
+				bad("conditions other than Canary-Failed were modified")
 			}
-			a, _ := json.Marshal(pre.Status.Conditions)
-			b, _ := json.Marshal(post.Status.Conditions[:len(pre.Status.Conditions)])
-			if len(pre.Status.Conditions) > 0 && string(a) != string(b) {
-				bad("existing conditions were modified")
+			nFailed, failedTrue := 0, false
+			for _, x := range post.Status.Conditions {
+				if x.Type == edsv1.ConditionTypeCanaryFailed {
+					nFailed++
+					failedTrue = failedTrue || x.Status == "True"
+				}
+			}
+			if nFailed != 1 || !failedTrue {
+				bad("after the command the replica set has %d Canary-Failed conditions (true among them: %v), expected exactly one, true", nFailed, failedTrue)
+			}
+			if first := ersCond(&post.Status, edsv1.ConditionTypeCanaryFailed); first == nil || first.Status != "True" {
+				bad("the Canary-Failed condition the controllers read is not true after the command")
 			}
 			continue
 		}
